@@ -355,7 +355,15 @@ class ThreadScenario(Scenario):
         self.t.start()
         self.ready.wait(20)
         import time
-        time.sleep(0.02)
+        # wait until the thread is really parked inside gate.wait(): its innermost frame stops changing
+        last = None
+        for _ in range(4000):
+            fr = sys._current_frames().get(self.t.ident)
+            key = (id(fr), fr.f_lasti if fr is not None else None)
+            if key == last and fr is not None and fr.f_code.co_name in ("wait", "acquire", "_wait"):
+                break
+            last = key
+            time.sleep(0.0005)
 
     def extract(self):
         return self.H.ss.extract(self.t)
